@@ -96,6 +96,10 @@ def main():
             text += (f" The decision logic of {GUARDS[pid]} is re-translated from the source into Lean on every run (translate/py2lean_guards.py → LK/Generated/Guards{pid}.lean) "
                      f"and proved to be the model's (LK/Proofs/Guards{pid}.lean); a broken obligation triggers the failing-input search.")
             tech += " + per-run translation of decision logic with proof obligations"
+        if pid == "C04":
+            text += (" The array statements of __call__ of PopScorer, HPFScorer, FunkSVDScorer, ALSBase and BiasedSVDScorer are re-translated on every run (translate/py2lean_scatter.py → LK/Generated/ScatterC04.lean, "
+                     "combinators of LK/Model/ArrayOps.lean) and each translated __call__ is proved equal to the per-item map scoreList (LK/Proofs/ScatterC04.lean); the k-NN, FlexMF and implicit scorers remain measured only.")
+            tech = "Lean theorem on the scatter idiom + per-run translation of five scorers' array code proved equal to it + model-mediated metamorphic run over shipped scorers"
         if pid == "C03":
             text += (" The wiring of the pipelines topn_pipeline / predict_pipeline build is extracted on every run (translate/wiring_gen.py → LK/Generated/WiringC03.lean) and the value of its "
                      "recommender / rating-predictor nodes, with every component replaced by its model, is proved to be LK.Rec.recommend / fallbackMerge for all environments (LK/Proofs/WiringC03.lean).")
